@@ -122,11 +122,12 @@ class Runner:
             tok = args[0] if args and isinstance(args[0], (int, str)) \
                 and not isinstance(args[0], bool) else None
             rets = self.cfg.get('returns') or {}
-            if tok in rets:
-                return rets[tok]
-            if str(tok) in rets:
-                return rets[str(tok)]
-            return None
+            ret = rets.get(tok, rets.get(str(tok)))
+            delay = (self.cfg.get('delays') or {}).get(tok)
+            if delay is not None:
+                return D.Delay(ret, delay, lambda: self.events.append(
+                    ('handler_done', n)))
+            return ret
         return None
 
     def _register(self):
@@ -195,14 +196,14 @@ class Runner:
         body = {}
 
         def add(name, fn):
+            h = D.wrap_handler(fn, is_async, co)
             if co:
                 async def m(self_, *a):
-                    return fn(*a)
-                body[name] = m
+                    return await h(*a)
             else:
                 def m(self_, *a):
-                    return fn(*a)
-                body[name] = m
+                    return h(*a)
+            body[name] = m
         add('on_connect', lambda sid, environ, auth=None: runner._invoke(
             'connect', ns, 'connect', sid, [auth], 'class'))
         add('on_disconnect', lambda sid, reason: runner._invoke(
@@ -286,6 +287,8 @@ class Runner:
                 self.T[op[1]].client_close()
             elif kind == 'raw':
                 self.T[op[1]].feed(op[2])
+            elif kind == 'burst':
+                self._burst(op[1])
             elif kind == 'raw_encoded':
                 self.T[op[1]].feed_encoded(op[2])
             elif kind == 'enter':
@@ -347,6 +350,28 @@ class Runner:
             res['exc_tb'] = traceback.format_exc()[-2500:]
         self._collect(res)
         return res
+
+    def _burst(self, items):
+        """Feed several frames back to back, without joining background
+        work in between."""
+        from engineio import packet as eio_packet
+        d = self.d
+        if d.is_async:
+            async def go():
+                for T, frame in items:
+                    await self.T[T].socket.receive(eio_packet.Packet(
+                        eio_packet.MESSAGE, frame))
+            d.run(go())
+        else:
+            old = d.autojoin
+            d.autojoin = False
+            try:
+                for T, frame in items:
+                    self.T[T].socket.receive(eio_packet.Packet(
+                        eio_packet.MESSAGE, frame))
+            finally:
+                d.autojoin = old
+                d.join()
 
     def _session_block(self, sid, ns, updates):
         d = self.d
